@@ -3,7 +3,8 @@
 the patch is applied to the scratch worktree /tmp/wt-verify, a copy of the harness (/tmp/harness2, path dependency on
 that worktree) is rebuilt, and the check runs with that binary; evidence and replay files go to /tmp/scratch-evidence."""
 import importlib, os, subprocess, sys
-sys.path.insert(0, '/verif')
+ROOT = os.environ.get('VERIF_ROOT', '/verif')     # a development copy of /verif can be exercised the same way
+sys.path.insert(0, ROOT)
 from vlib import core
 seed, prop = sys.argv[1], sys.argv[2]
 tier = sys.argv[3] if len(sys.argv) > 3 else "quick"
@@ -13,7 +14,7 @@ if not os.path.isdir(WT):
     subprocess.run(["git", "-C", "/repo", "worktree", "add", "--detach", WT, "HEAD", "-f"], check=True, capture_output=True)
 subprocess.run(["git", "-C", WT, "checkout", "-q", "--detach", subprocess.run(["git", "-C", "/repo", "rev-parse", "HEAD"], capture_output=True, text=True).stdout.strip()])
 subprocess.run(["git", "-C", WT, "checkout", "--", "."])
-subprocess.run(f"mkdir -p {H2} && rsync -a --exclude target /verif/harness/ {H2}/ && sed -i 's#/repo#{WT}#g' {H2}/cookverif/Cargo.toml {H2}/ffi_shim/Cargo.toml", shell=True, check=True)
+subprocess.run(f"mkdir -p {H2} && rsync -a --exclude target {ROOT}/harness/ {H2}/ && sed -i 's#/repo#{WT}#g' {H2}/cookverif/Cargo.toml {H2}/ffi_shim/Cargo.toml", shell=True, check=True)
 a = subprocess.run(["git", "-C", WT, "apply", os.path.join(seed, "patch.diff")], capture_output=True, text=True)
 if a.returncode:
     print("PATCH DOES NOT APPLY", a.stderr[:300]); sys.exit(9)
@@ -26,7 +27,7 @@ try:
     core.EVIDENCE = "/tmp/scratch-evidence" + SID; core.REPLAYS = core.EVIDENCE + "/replays"
     sys.argv = ["check"]
     import runpy
-    chk = runpy.run_path("/verif/check", run_name="chk")
+    chk = runpy.run_path(ROOT + "/check", run_name="chk")
     mod, fn = chk["PROPS"][prop]
     m = importlib.import_module(mod)
     ctx = core.Ctx(prop, tier, int(os.environ.get("VERIF_SEED", "20261003")))
